@@ -17,6 +17,9 @@ def main():
             assert len(rest) % 3 == 0
             for i in range(0, len(rest), 3):
                 f, old, new = rest[i:i + 3]
+                if os.path.isabs(f):
+                    f = os.path.relpath(f, "/repo")   # never touch /repo itself
+                assert not f.startswith(".."), f
                 p = os.path.join(d, f)
                 s = open(p).read()
                 if s.count(old) != 1:
